@@ -23,7 +23,9 @@ Definition Tc (addrs : list string) (req : string) : tcfg := {| t_addresses := a
 Definition Rq (pre : option gpath) (ps : list gpath) : sub_request := {| r_prefix := pre; r_paths := ps |}.
 Definition Cf (rs : list (string * sub_request)) (ts : list (string * tcfg)) : config :=
   {| cf_requests := rs; cf_targets := ts |}.
-Definition Cq (pre p : gpath) : cquery := {| cq_prefix := pre; cq_path := p |}.
+Definition Cq (pre p : gpath) : cquery := {| cq_prefix := pre; cq_path := p; cq_more := [] |}.
+(** a subscription with further entries *)
+Definition Cqs (pre p : gpath) (more : list gpath) : cquery := {| cq_prefix := pre; cq_path := p; cq_more := more |}.
 Definition Cr (m : qmode) (t : string) (ps : list path) : cli_req :=
   {| cr_mode := m; cr_target := t; cr_paths := ps |}.
 Definition Ca (t : string) (qs : list string) (qt pr pf : string) : cli_args :=
@@ -232,9 +234,10 @@ Definition model_seen (c : case) (name : string) : option sub_request :=
 
 Definition cquery_of_req (r : cli_req) : option cquery :=
   match cr_paths r with
-  | [p] => Some {| cq_prefix := P "" (cr_target r) [] [];
-                   cq_path := P "" "" (map (fun n => E n []) p) [] |}
-  | _ => None
+  | p :: ps => Some {| cq_prefix := P "" (cr_target r) [] [];
+                       cq_path := P "" "" (map (fun n => E n []) p) [];
+                       cq_more := map (fun p' => P "" "" (map (fun n => E n []) p') []) ps |}
+  | [] => None
   end.
 
 Definition model_cli (c : case) (a : cli_args) : option view :=
@@ -292,8 +295,13 @@ Definition stream_of (c : case) (name : string) : list item :=
 Definition configured (c : case) (name : string) : bool :=
   validate (c_cfg c) && existsb (fun nt => String.eqb name (fst nt)) (cf_targets (c_cfg c)).
 
-Definition spec_view (c : case) (name : string) (q : path) : list (path * scalar) :=
-  selects q (stamp_paths name (replay (stream_of c name))).
+Definition spec_view (c : case) (name : string) (qs : list path) : list (path * scalar) :=
+  selects_any qs (stamp_paths name (replay (stream_of c name))).
+
+(** every entry of the subscription is for a subtree and has a valid path *)
+Definition hyp_queries (name : string) (q : cquery) (s : list item) : bool :=
+  forallb (fun Q => hyp_query name Q s) (sub_queries q)
+  && forallb (fun p => match complete_path (cq_prefix q) p with Some _ => true | None => false end) (cq_paths q).
 
 (** known-finding classes (see /verif/known_findings.d/C01.json) *)
 Definition has_path_origin (s : list item) : bool :=
@@ -339,12 +347,11 @@ Definition tagged (i : nat) (k : N) : list (nat * N) :=
 Definition kp_client (i : nat) (c : case) (q : cquery) (o : obs) : list (nat * N) :=
   let name := g_target (cq_prefix q) in
   let s := stream_of c name in
-  if configured c name && hyp_stream s && hyp_query name (sub_query q) s
-     && match complete_path (cq_prefix q) (cq_path q) with Some _ => true | None => false end
+  if configured c name && hyp_stream s && hyp_queries name q s
   then
     match o with
     | OView (VLeaves l) =>
-        if leaves_eqb (spec_view c name (sub_query q)) (drop_meta l) then []
+        if leaves_eqb (spec_view c name (sub_queries q)) (drop_meta l) then []
         else tagged i (stream_class c name false)
     | OView (VSubFailed SubNotFound) => tagged i (stream_class c name true)
     | _ => [(i, 2%N)]
@@ -359,11 +366,11 @@ Definition kp_cli (i : nat) (c : case) (r : cli_run) : list (nat * N) :=
   | Some q =>
       let name := cr_target (cl_intended r) in
       let s := stream_of c name in
-      if configured c name && hyp_stream s && hyp_query name (sub_query q) s
+      if configured c name && hyp_stream s && hyp_queries name q s
       then
         match cl_result r with
         | CTree l =>
-            if cli_leaves_match (sort_leaves (spec_view c name (sub_query q))) (sort_leaves (drop_meta l))
+            if cli_leaves_match (sort_leaves (spec_view c name (sub_queries q))) (sort_leaves (drop_meta l))
             then [] else tagged i (stream_class c name false)
         | CFail =>
             if defect_C01_1 then tagged i 1%N
